@@ -120,7 +120,9 @@ class UnusedTranslator:
         """predicates inside statements that are passed through as they are (#edge, #heuristic, #external, ...)"""
         ret: set[Predicate] = set()
         for stm in prg:
-            if stm.ast_type not in (ASTType.Rule, ASTType.Minimize, ASTType.Program):
+            if stm.ast_type in (ASTType.ShowSignature, ASTType.ProjectSignature):
+                ret.add(Predicate(stm.name, stm.arity))
+            elif stm.ast_type not in (ASTType.Rule, ASTType.Minimize, ASTType.Program):
                 for func in collect_ast(stm, "Function"):
                     ret.add(Predicate(func.name, len(func.arguments)))
         return ret
